@@ -105,8 +105,11 @@ fn representatives(env: &Env) -> Vec<char> {
     (0..23).map(|i| p.bidi_pvalid[i].first().or(p.bidi[i].first()).copied().expect("class has no member")).collect()
 }
 
-const TEMPLATES: [&[i8]; 9] =
-    [&[-1], &[1, -1], &[1, -1, 1], &[1, -1, 3], &[1, 4, -1], &[2, -1, 10], &[0, -1, 1], &[-1, 1], &[1, 8, -1]];
+const TEMPLATES: [&[i8]; 12] = [
+    &[-1], &[1, -1], &[1, -1, 1], &[1, -1, 3], &[1, 4, -1], &[2, -1, 10], &[0, -1, 1], &[-1, 1], &[1, 8, -1],
+    // c as the ONLY character that can make the label an RTL label (RTL detection itself)
+    &[0, -1], &[-1, 0], &[4, -1, 0],
+];
 
 fn template_seq(t: &[i8], c: u8) -> Vec<u8> {
     t.iter().map(|x| if *x < 0 { c } else { *x as u8 }).collect()
@@ -158,7 +161,7 @@ pub fn run(env: &Env) -> Rec {
     let mut rec = Rec::new();
     let d16 = env.d16();
     match templates_distinguish() {
-        Ok(g) => rec.note(format!("template self-check passed: the 9 templates separate the 23 bidi classes into {} groups, each indistinguishable for the rule in all contexts up to length 4", g)),
+        Ok(g) => rec.note(format!("template self-check passed: the 12 templates separate the 23 bidi classes into {} groups, each indistinguishable for the rule in all contexts up to length 4", g)),
         Err(e) => {
             rec.note(format!("HARNESS-ERROR: {}", e));
             return rec;
@@ -201,7 +204,7 @@ pub fn run(env: &Env) -> Rec {
         }
     });
     rec.merge(rb);
-    rec.exhaustive("every code point assigned in Unicode 16.0.0 in 9 class-distinguishing templates");
+    rec.exhaustive("every code point assigned in Unicode 16.0.0 in 12 templates (9 class-distinguishing + 3 where it is the only possibly-RTL character)");
     // (c) random labels over weighted classes, RTL heavy, and PVALID-only labels through enforce
     let n = env.n(1_500_000, 40_000_000);
     let per = 2000usize;
